@@ -50,7 +50,6 @@ COMMON_ASSUME = [
 PROPS = {}
 
 NOT_APPLICABLE = {
-    "C07": "which HTML attribute yields which link is decided inside goquery/cascadia/x-net-html on a DOM; an abstract-DOM model of those libraries was not built, and without it the extractor's dispatch cannot be executed symbolically. The downstream part (hops, via, depth limit, anchors queued whenever the hop limit allows) is decided by the C06 check (DESIGN.md 'As built' D).",
     "C04": "crash/restart durability lives in SQLite (a wasm build run by wazero), the file system and a second process reopening partially written gzip members; none of that exists in an SSA-level encoding of Zeno's Go code and the decisive behaviour is carried by SQL text executed inside that engine (DESIGN.md section 7)",
 }
 
@@ -415,5 +414,19 @@ PROPS["C16"] = {
         {"pkg": AR, "func": "VerifH_C02_archive", "models": ARCH_MODELS, "opts": {"max_steps": 50000000, "unwind": 70000}, "covers": ["archived", "retries-exhausted"]},
         {"pkg": PP, "func": "VerifH_C06_postprocess", "models": POSTPROC_MODELS, "opts": {"map_order_all": False}, "covers": ["body-released"]},
         {"pkg": "internal/verifpipe", "func": "VerifH_C01_one_seed", "replay_tries": 2, "opts": {"max_steps": 50000000, "unwind": 70000, "map_order_all": False}, "covers": ["finished"]},
+    ],
+}
+
+PROPS["C07"] = {
+    "level": "model_checking",
+    "explanation": "the real HTMLAssets/HTMLOutlinks/extractBaseTag/resolveURL code and the real goquery/cascadia selector engine run from SSA on DOM trees built node by node (which elements and attributes are present is chosen symbolically); "
+                   "expected assets/outlinks come from the attribute table of the statement; natively the same DOM is rendered to text and parsed by the real x/net/html parser.",
+    "bounds": "per page at most one each of img (src absolute / src relative / srcset with two candidates), script src (relative), link href (stylesheet / alternate), video|audio|source src, a href (dot-segment relative); disable-html-tag in {none,img,script,link}; capture-alternate-pages on/off",
+    "outside": "url(...) in style elements/attributes and script-text sniffing (regular expressions are opaque in the engine); real-world HTML parsing quirks (only the native replay goes through the parser); browser-conformant resolution beyond net/url.ResolveReference; base elements",
+    "assumptions": COMMON_ASSUME + ["regexp objects are opaque: regex-derived assets are neither demanded nor excluded"],
+    "stub_pkgs": DEFAULT_STUBS + [STATS],
+    "harnesses": [
+        {"pkg": EX, "func": "VerifH_C07_attributes", "opts": {"max_steps": 50000000, "unwind": 100000, "map_order_all": False},
+         "covers": ["asset-expected", "srcset", "relative-script", "alternate", "tag-disabled", "anchor"]},
     ],
 }
